@@ -122,6 +122,11 @@ func (propC19) Gen(r *Rand) *Plan {
 			}
 			text = "If(OddFails(" + arg + ") >= 0, " + text + ", " + text + ")"
 		}
+		if p.Config["funcs"] == "" && r.Bool(0.25) {
+			// every task brings its own function collection; the collections disagree about what "Scale" does
+			p.Config["funcs"] = "per-task"
+			text = "Array(" + text + ", " + flipCase(r, "Scale") + "(" + fmt.Sprint(r.Range(1, 9)) + "))"
+		}
 		p.Setup = []Op{{Op: "SetExpression", S: text}}
 		if r.Bool(0.15) {
 			p.Config["setup"] = "tokens" // compiled through SetOriginalTokens
@@ -474,6 +479,20 @@ func (propC19) Exec(p *Plan, x *Ctx) *Outcome {
 		return fc
 	}
 	sharedFuncs := customFuncs()
+	// per-task collections: same names, task-specific behaviour
+	perTask := p.Cfg("funcs", "") == "per-task"
+	taskFuncsOf := func(t int) functions.IFunctionCollection {
+		if !perTask {
+			return sharedFuncs
+		}
+		fc := functions.NewDefaultFunctionCollection()
+		fc.Add(functions.NewDelegatedFunction("Scale", scaleBy(10+t)))
+		return fc
+	}
+	taskFuncs := make([]functions.IFunctionCollection, ntasks)
+	for t := range taskFuncs {
+		taskFuncs[t] = taskFuncsOf(t)
+	}
 	var sharedCalc *calculator.ExpressionCalculator
 	var sharedTmpl *mustache.MustacheTemplate
 	taskVars := make([][]*variables.VariableCollection, ntasks)
@@ -578,7 +597,11 @@ func (propC19) Exec(p *Plan, x *Ctx) *Outcome {
 								s.err = err
 								return
 							}
-							s.res, s.err = c.EvaluateUsingVariablesAndFunctions(buildVars(getSet(tp, o.Set)), customFuncs())
+							fc := customFuncs()
+							if perTask {
+								fc = taskFuncsOf(t)
+							}
+							s.res, s.err = c.EvaluateUsingVariablesAndFunctions(buildVars(getSet(tp, o.Set)), fc)
 						}()
 						ref[t][i] = s.describe()
 					}
@@ -645,7 +668,7 @@ func (propC19) Exec(p *Plan, x *Ctx) *Outcome {
 							s.done = true
 						}()
 						run.ResetOpSteps()
-						s.res, s.err = sharedCalc.EvaluateUsingVariablesAndFunctions(vc, sharedFuncs)
+						s.res, s.err = sharedCalc.EvaluateUsingVariablesAndFunctions(vc, taskFuncs[t])
 					}()
 				}
 			})
@@ -751,7 +774,7 @@ func (propC19) Exec(p *Plan, x *Ctx) *Outcome {
 						if set < 0 {
 							set = -set
 						}
-						s.res, s.err = sharedCalc.EvaluateUsingVariablesAndFunctions(taskVars[t][set%len(taskVars[t])], sharedFuncs)
+						s.res, s.err = sharedCalc.EvaluateUsingVariablesAndFunctions(taskVars[t][set%len(taskVars[t])], taskFuncs[t])
 					}()
 					if got := s.describe(); got != ref[t][i] {
 						out.Violate("repeatability", "C19/repeat/shared-calculator", "task %d op %d evaluated again afterwards: got %s; reference %s", t, i, clip(got), clip(ref[t][i]))
@@ -1232,4 +1255,14 @@ func oddFails(params []*variants.Variant, ops variants.IVariantOperations) (*var
 		return nil, errOdd
 	}
 	return variants.VariantFromInteger(n), nil
+}
+
+// scaleBy is a caller-supplied delegate whose behaviour differs per collection (task-safe).
+func scaleBy(k int) functions.FunctionCalculator {
+	return func(params []*variants.Variant, ops variants.IVariantOperations) (*variants.Variant, error) {
+		if len(params) != 1 || params[0] == nil || params[0].Type() != variants.Integer {
+			return variants.VariantFromInteger(-k), nil
+		}
+		return variants.VariantFromInteger(params[0].AsInteger() * k), nil
+	}
 }
